@@ -57,9 +57,12 @@ const (
 	OpYield
 	OpWait
 	OpOnce
+	OpSend
+	OpRecv
+	OpIO
 )
 
-var opNames = []string{"start", "lock", "rlock", "wannounce", "wlock", "select", "sleep", "yield", "wait", "once"}
+var opNames = []string{"start", "lock", "rlock", "wannounce", "wlock", "select", "sleep", "yield", "wait", "once", "send", "recv", "io"}
 
 func (k OpKind) String() string { return opNames[k] }
 
@@ -119,6 +122,10 @@ type World struct {
 	OnLock func(t *Thread, kind string, obj interface{})
 
 	Panics []*PanicRec
+
+	// ChanState: the emulated channels of this world (vsync.Send / Recv / SelectB / Close), keyed
+	// by the channel's address.
+	ChanState map[uintptr]interface{}
 
 	nextID   int
 	timers   []*vtimer
@@ -515,10 +522,10 @@ func CurWorld() *World {
 	return W
 }
 
-func (w *World) Point(op Op)                       { w.point(w.Cur, op) }
-func (w *World) AddTimer(d, period int64) *VTimer  { return &VTimer{t: w.addTimer(d, period), w: w} }
-func (w *World) DeadCh() <-chan struct{}           { return w.deadCh }
-func (w *World) FreeGoStart()                      {}
+func (w *World) Point(op Op)                      { w.point(w.Cur, op) }
+func (w *World) AddTimer(d, period int64) *VTimer { return &VTimer{t: w.addTimer(d, period), w: w} }
+func (w *World) DeadCh() <-chan struct{}          { return w.deadCh }
+func (w *World) FreeGoStart()                     {}
 func (w *World) LockEvent(kind string, obj interface{}) {
 	if w.OnLock != nil {
 		w.OnLock(w.Cur, kind, obj)
